@@ -275,6 +275,15 @@ def run(chk, replay=None):
                         stats['ground_truth_classes'] += 1
                         if got != [want]:
                             oracle.append(('quantity v%d is a %s by construction but is classified %s' % (q.idx, want, got), [text]))
+                    # the NLA block: nx, ny (and the initialised na, which the analyser counts among the unknowns) are solved together, the consumers nz = 2 nx, nw = nz + 1, nu = nw - na
+                    # hang off an NLA unknown and are algebraic, however long the chain
+                    if sysd.get('nla_block') and not ext:
+                        byname = {nm: t for (c, nm), (t, i) in real['vars'].items()}
+                        for nm, want in (('nx', 'algebraic'), ('ny', 'algebraic'), ('nz', 'algebraic'), ('nw', 'algebraic'), ('nu', 'algebraic')):
+                            if nm in byname:
+                                stats['ground_truth_classes'] += 1
+                                if byname[nm] != want:
+                                    oracle.append(('the variable %s of the NLA block is %s by construction but is classified %s' % (nm, want, byname[nm]), [text]))
                     # every directly solved equation depends on the equations computing the non-constant quantities it reads
                     if not ext:
                         rname, owner = {}, {}
